@@ -247,6 +247,9 @@ class Escapes:
                         continue
                     for t in CALL_CATALOGUE[q]:
                         out.append((n, t, f"{q.split('.')[-1]}({ast.unparse(n.args[0])[:40] if n.args else ''})"))
+                elif isinstance(n.func, ast.Attribute) and n.func.attr in ("feed", "close", "goahead") and self._is_html_parser(fi, n.func.value):
+                    # html.parser / _markupbase raise AssertionError on malformed declarations and marked sections ('<![x]>')
+                    out.append((n, AssertionError, f".{n.func.attr}() of an html.parser.HTMLParser on {ast.unparse(n.func.value)[:30]}"))
                 elif isinstance(n.func, ast.Attribute) and n.func.attr in METHOD_CATALOGUE and not isinstance(n.func.value, ast.Constant):
                     if n.func.attr == "index" and not n.args:
                         continue
@@ -278,6 +281,23 @@ class Escapes:
                     out.append((n, IndexError, f"{ast.unparse(n)[:40]}"))
         out.extend(self._typed_sites(fi))
         return out
+
+    def _is_html_parser(self, fi: FunctionInfo, recv: ast.AST) -> bool:
+        """recv is a local bound to `Cls(...)` (or `self` inside Cls) where Cls derives from html.parser.HTMLParser."""
+        from .srcmodel import ClassInfo
+
+        def derives(ci: ClassInfo) -> bool:
+            return any(b.endswith("HTMLParser") for b in self.prog.ext_ancestors(ci))
+
+        if isinstance(recv, ast.Name) and recv.id == "self" and fi.cls is not None:
+            return derives(fi.cls)
+        if isinstance(recv, ast.Name):
+            for a in ast.walk(fi.node):
+                if isinstance(a, ast.Assign) and any(isinstance(t, ast.Name) and t.id == recv.id for t in a.targets) and isinstance(a.value, ast.Call):
+                    r = self.prog.resolve(fi.module, ast.unparse(a.value.func))
+                    if isinstance(r, ClassInfo) and derives(r):
+                        return True
+        return False
 
     # ---------------------------------------------------------------- sites that depend on declared types
     STRINGIFIERS = {"str", "repr", "format", "ascii", "markupsafe.escape", "markupsafe.Markup", "markupsafe.soft_str"}
